@@ -91,6 +91,8 @@ def units(tier, seed):
     for k2, eng in enumerate([e for e in shapes_h2() if e[1] in ("SEA", "DE", "SHADE", "SEAX", "GA", "DEd", "MWEA")][:: (1 if tier == "thorough" else 3)]):
         descs.append(dict(engines=list(eng), gens=1 + k2 % 2, box=boxes[k2 % 3], obj=objs[k2 % 4], maximize=bool(k2 % 2), Mh=3, seed=s, levelshift=True, use_cache=True,
                           sprout={"kind": ("simple", "nbc")[k2 % 2], "L": 2}))
+    for k4, eng in enumerate(shapes_h2()[::4]):
+        descs.append(dict(engines=list(eng), gens=2, box=boxes[k4 % 3], obj=objs[k4 % 4], maximize=bool(k4 % 2), Mh=3, seed=s, array_memo=True, sprout={"kind": ("simple", "nbc")[k4 % 2], "L": 2}))
     # objective undefined (NaN) on part of the box: a stored NaN must be the value of that very genome, and never turn into +-inf
     for k3, eng in enumerate([e for e in shapes_h1() + shapes_h2() if not any(v.startswith("CMA") or v == "LOC" for v in e)][:: (1 if tier == "thorough" else 2)]):
         for mx in (False, True):
